@@ -584,3 +584,72 @@ Proof.
     destruct (yield_step0 _ _ _ _ _ Y H1 H2 H3 H4 Hk Hs) as (F & S & R).
     destruct r; inversion E; subst; (split; [exact F|]); (split; [exact S|]); auto.
 Qed.
+
+(* the wake counter advances exactly when a fiber is scheduled *)
+Definition wc_of (res : wres) (dflt : Z) : Z :=
+  match res with WCont wc _ => wc | WRet v => v | WJunk => dflt end.
+
+Lemma wake_step_wc m t q cnt wc kp inm m' res :
+  wake_step m t q cnt wc kp inm = (m', res) -> res <> WJunk ->
+  wc_of res 0 = match sched_of m kp with Some _ => wc + 1 | None => wc end.
+Proof.
+  intros E NJ. destruct kp as [|h|h nx|h nx|h d|h|f|f|sp]; cbn in E; cbn [sched_of].
+  - inversion E; subst. reflexivity.
+  - destruct (nnext m h); [destruct (0 <? cnt)|]; inversion E; subst; try reflexivity.
+    unfold wloop. destruct (wc <? cnt); reflexivity.
+  - inversion E; subst. reflexivity.
+  - inversion E; subst. reflexivity.
+  - inversion E; subst. reflexivity.
+  - inversion E; subst. reflexivity.
+  - destruct (fstate m f =? ST_WAITING); inversion E; subst; [reflexivity|].
+    unfold wloop. destruct (wc + 1 <? cnt); reflexivity.
+  - inversion E; subst. unfold wloop. destruct (wc + 1 <? cnt); reflexivity.
+  - destruct sp as [|st]; [inversion E; subst; reflexivity|].
+    destruct (waitingish st); inversion E; subst; [congruence|].
+    unfold wloop. destruct (wc <? cnt); reflexivity.
+Qed.
+
+(* what the client does when a call returns *)
+Lemma start0 p k s :
+  phase_ok (phase_of_start (start p k)) /\ pstate s (phase_of_start (start p k)) = st12 s /\
+  (forall c q cnt wc kp, phase_of_start (start p k) <> PRun c (KWake q cnt wc kp)).
+Proof.
+  destruct p as [|o p']; [cbn; repeat split; auto; discriminate|].
+  destruct o; cbn; repeat split; auto; discriminate.
+Qed.
+
+Lemma creturn0 m t c v m1 p1 s :
+  creturn m t c v = (m1, p1) -> (exists kp, cphase_okb c kp = true) ->
+  phase_ok p1 /\ pstate s p1 = st12 s /\
+  (m1 = m \/ exists p k, c = CW2 p k /\ m1 = set_slot_mutex m t (Some UMUTEX)) /\
+  (forall c' q cnt wc kp, p1 = PRun c' (KWake q cnt wc kp) ->
+     wc = 0 /\ ((exists um p k, c = CS2 um p k /\ cnt = 1 /\ 1 <= v) \/ (exists um p k, c = CB2 um p k /\ cnt = v))).
+Proof.
+  intros E [kp0 Hc]. unfold creturn in E.
+  destruct c; cbn in E.
+  - inversion E; subst. destruct (start0 p k s) as (A & B & C). repeat split; auto; intros; exfalso; eapply C; eauto.
+  - inversion E; subst. destruct o; destruct kp0 as [| | [|[|?]] | | | ]; cbn in Hc; try discriminate; cbn; repeat split; auto; intros; discriminate.
+  - destruct o; destruct kp0 as [|[[|[|[|?]]] ?|?|? ? ?|? ? ?|? ? ?|? ?]| | | | ]; cbn in Hc; try discriminate;
+      inversion E; subst; cbn; repeat split; auto; intros; discriminate.
+  - destruct (v =? 0); inversion E; subst; cbn; repeat split; auto; intros; discriminate.
+  - inversion E; subst; cbn; repeat split; auto; intros; discriminate.
+  - inversion E; subst; cbn. repeat split; auto; try (intros; discriminate). right. eauto.
+  - inversion E; subst; cbn; repeat split; auto; intros; discriminate.
+  - inversion E; subst; cbn; repeat split; auto; intros; discriminate.
+  - inversion E; subst; cbn; repeat split; auto; intros; discriminate.
+  - destruct (0 <=? v - 1) eqn:Ev; inversion E; subst; cbn; repeat split; auto; try (intros; discriminate).
+    all: match goal with H : PRun _ _ = PRun _ _ |- _ => inversion H; subst end; auto.
+    left. exists um, p, k. repeat split; auto. apply Z.leb_le in Ev. lia.
+  - inversion E; subst; cbn; repeat split; auto; intros; discriminate.
+  - destruct (v =? 0) eqn:Ev; inversion E; subst; cbn; repeat split; auto; try (intros; discriminate).
+    all: match goal with H : PRun _ _ = PRun _ _ |- _ => inversion H; subst end; auto.
+    right. exists um, p, k. auto.
+  - inversion E; subst; cbn; repeat split; auto; intros; discriminate.
+  - destruct um; inversion E; subst.
+    + cbn; repeat split; auto; intros; discriminate.
+    + destruct (start0 p (S k) s) as (A & B & C). repeat split; auto; intros; exfalso; eapply C; eauto.
+  - inversion E; subst; cbn; repeat split; auto; intros; discriminate.
+  - inversion E; subst; cbn; repeat split; auto; intros; discriminate.
+  - inversion E; subst. destruct (start0 p (S k) s) as (A & B & C). repeat split; auto; intros; exfalso; eapply C; eauto.
+  - inversion E; subst. destruct (start0 p (S k) s) as (A & B & C). repeat split; auto; intros; exfalso; eapply C; eauto.
+Qed.
